@@ -278,7 +278,21 @@ fn emit_simple(a: &mut Asm, rng: &mut Rng, o: &ProgOpts) {
             } else {
                 // legacy byte registers without REX: 0 AL, 1 CL, 2 DL, 4 AH, 5 CH, 6 DH (BL/BH belong to the data pointer)
                 let byte_regs: &[u8] = if o.reserved.contains(&1) { &[0, 2, 4, 6] } else { &[0, 1, 2, 4, 5, 6] };
-                match rng.below(17) {
+                match rng.below(19) {
+                    17 => {
+                        // imul r, s, imm32  (REX.W 69 /r id)
+                        a.rex_w(r, s);
+                        a.b.push(0x69);
+                        a.modrm_rr(r, s);
+                        a.b.extend_from_slice(&(rng.val() as u32 | 0x1000).to_le_bytes());
+                    }
+                    18 => {
+                        // imul r, s, imm8  (REX.W 6B /r ib)
+                        a.rex_w(r, s);
+                        a.b.push(0x6b);
+                        a.modrm_rr(r, s);
+                        a.b.push(rng.next() as u8);
+                    }
                     13 => a.b.extend_from_slice(&[0xb0 | *rng.pick(byte_regs), rng.next() as u8]), // mov r8, imm8 (incl. AH/CH/DH)
                     14 => a.b.extend_from_slice(&[0x88, 0xc0 | (*rng.pick(byte_regs) << 3) | *rng.pick(byte_regs)]), // mov r8, r8
                     15 => a.b.extend_from_slice(&[0x0f, 0xb6, 0xc0 | ((*rng.pick(&[0u8, 2, 6, 7])) << 3) | *rng.pick(byte_regs)]), // movzx eax/edx/esi/edi, r8
